@@ -210,7 +210,19 @@ func C13(p *core.Program, r *core.Report) {
 						}
 						for _, callee := range a.SiteCallees(fn, x) {
 							if !a.Analysed(callee) {
-								continue // standard library (formatting): trusted pure apart from the modelled mutators
+								// standard library (formatting): trusted pure apart from the modelled
+								// mutators (sort.*, (*bytes.Buffer).Write, ...), which may only work on
+								// something made inside the region
+								for _, k := range a.ExternalMutates(callee) {
+									args := x.Common().Args
+									if x.Common().IsInvoke() || k >= len(args) {
+										continue
+									}
+									if root := rootOfValue(args[k]); !inRegion(root) {
+										problems = append(problems, fmt.Sprintf("call to %s rearranges/writes %s, which exists outside the log region (at %s)", core.ShortKey(callee), core.NewCanon(p).Of(args[k]), p.Pos(in.Pos())))
+									}
+								}
+								continue
 							}
 							for _, ef := range a.TrackedMods(callee) {
 								li := a.Label(ef.Target)
@@ -532,4 +544,34 @@ func storeIsLocal(addr ssa.Value, inRegion func(ssa.Value) bool) bool {
 func isDebugMap(p *core.Program, m ssa.Value) bool {
 	s := core.NewCanon(p).Of(m)
 	return strings.Contains(s, ".linkDebugInfo") || strings.Contains(s, ".linkDebugMessages")
+}
+
+// rootOfValue strips conversions, slicing and interface wrapping from a container value.
+func rootOfValue(v ssa.Value) ssa.Value {
+	for i := 0; i < 12; i++ {
+		switch x := v.(type) {
+		case *ssa.MakeInterface:
+			v = x.X
+		case *ssa.ChangeType:
+			v = x.X
+		case *ssa.Convert:
+			v = x.X
+		case *ssa.Slice:
+			v = x.X
+		case *ssa.ChangeInterface:
+			v = x.X
+		case *ssa.UnOp:
+			if x.Op != token.MUL {
+				return v
+			}
+			v = x.X // a load: where the loaded place lives (a spilled local or parameter, a field)
+		case *ssa.FieldAddr:
+			v = x.X
+		case *ssa.IndexAddr:
+			v = x.X
+		default:
+			return v
+		}
+	}
+	return v
 }
